@@ -310,6 +310,83 @@ fn history2(out: &mut Out, rng: &mut Prng, len: usize) {
     out.case(&req, &obs, ops.iter().any(|o| o == "r" || o == "x"));
 }
 
+/// `send_hello` against a peer that has the answer queued before the call is sent: replies / errors / signals with
+/// the right, a neighbouring or no reply serial, with and without a string in the body.
+fn hello_case(out: &mut Out, rng: &mut Prng) {
+    use std::io::Write;
+    let (mut conn, mut server) = peer::connect_pair(false);
+    let before = rng.below(6) as u32;
+    for _ in 0..before {
+        conn.send.alloc_serial();
+    }
+    let expected = before + 1;
+    let rs: Option<u32> = match rng.below(6) {
+        0 | 1 | 2 => Some(expected),
+        3 => Some(expected + 1),
+        4 => Some(expected.saturating_sub(1).max(1)).filter(|x| *x != expected).or(Some(expected + 2)),
+        _ => None,
+    };
+    let kind = rng.below(4);
+    let name = *rng.pick(&[":1.42", ":1.4294967295", "", "org.example.Weird"]);
+    // the queued message
+    let call = DynamicHeader { serial: rs.and_then(NonZeroU32::new), sender: Some(":1.1".into()), ..Default::default() };
+    let (mut m, body): (MarshalledMessage, String) = match (rs, kind) {
+        (None, _) => {
+            let mut m = MessageBuilder::new().signal("org.freedesktop.DBus", "NameAcquired", "/org/freedesktop/DBus").build();
+            m.body.push_param(name).unwrap();
+            (m, format!("s{}", cps(name)))
+        }
+        (Some(_), 0) => {
+            let mut m = call.make_response();
+            m.body.push_param(name).unwrap();
+            (m, format!("s{}", cps(name)))
+        }
+        (Some(_), 1) => {
+            // an error reply with a message text: a reply with that serial whose body starts with a string
+            let m = call.make_error_response("org.freedesktop.DBus.Error.LimitsExceeded", Some(name.to_string()));
+            (m, format!("s{}", cps(name)))
+        }
+        (Some(_), 2) => {
+            let mut m = call.make_response();
+            m.body.push_param(7u32).unwrap();
+            (m, "n".into())
+        }
+        (Some(_), _) => (call.make_response(), "n".into()),
+    };
+    m.dynheader.sender = Some("org.freedesktop.DBus".into());
+    let mut frame = Vec::new();
+    rustbus::wire::marshal::marshal(&m, NonZeroU32::new(77).unwrap(), &mut frame).expect("peer message marshals");
+    frame.extend_from_slice(m.get_buf());
+    server.write_all(&frame).unwrap();
+    let r = guard(|| conn.send_hello(Timeout::Duration(std::time::Duration::from_millis(500))));
+    // what the peer saw
+    let bytes = peer::drain(&mut server);
+    let frames = peer::split_frames(&bytes).unwrap_or_default();
+    let req = format!("c13.hello {} {} {}", expected, rs.map(|x| x.to_string()).unwrap_or("~".into()), body);
+    let sent = if frames.len() == 1 { wire_serial(&frames[0]) } else { 0 };
+    if frames.len() != 1 {
+        out.violation(&req, &format!("send_hello put {} frames on the wire", frames.len()));
+    } else if let Ok(h) = peer::decode_frame(&frames[0]) {
+        if h.dynheader.member.as_deref() != Some("Hello") || h.dynheader.destination.as_deref() != Some("org.freedesktop.DBus") {
+            out.violation(&req, "the message sent by send_hello is not the Hello call to org.freedesktop.DBus");
+        }
+    }
+    let next = conn.send.alloc_serial().get();
+    let res = match &r {
+        Ok(Ok(n)) => format!("name={}", if n.is_empty() { "-".to_string() } else { n.chars().map(|c| (c as u32).to_string()).collect::<Vec<_>>().join(",") }),
+        Ok(Err(rustbus::connection::Error::AuthFailed)) => "not-the-answer".to_string(),
+        Ok(Err(_)) => "bad-body".to_string(),
+        Err(p) => format!("panic:{}", p),
+    };
+    // directly: a name only from a message whose reply serial is the serial of the Hello on the wire
+    if matches!(&r, Ok(Ok(_))) && rs.map(|x| x as u64) != Some(sent) {
+        out.violation(&req, &format!("send_hello accepted a message with reply serial {:?} as the answer to its call with serial {}", rs, sent));
+    }
+    out.hit("hello");
+    out.hit(&format!("hello_{}", res.split('=').next().unwrap_or("")));
+    out.case(&req, &format!("serial={} {} next={}", sent, res, next), true);
+}
+
 pub fn run(cfg: &Cfg) {
     std::panic::set_hook(Box::new(|_| {}));
     let mut out = Out::new(&cfg.outdir);
@@ -323,6 +400,9 @@ pub fn run(cfg: &Cfg) {
     for _ in 0..n2 {
         let len = if cfg.thorough { rng.range(2, 120) } else { rng.range(2, 30) } as usize;
         history2(&mut out, &mut rng, len);
+    }
+    for _ in 0..(if cfg.thorough { 600 } else { 60 }) {
+        hello_case(&mut out, &mut rng);
     }
     // reply constructors
     let senders: Vec<Option<String>> = vec![None, Some(":1.5".into()), Some("org.example.Caller".into()), Some(":1.4294967295".into())];
@@ -380,7 +460,7 @@ pub fn run(cfg: &Cfg) {
         }
     }
     out.finish(
-        "histories with suspended sends: send_message + serial() + into_progress before the first byte or after a short non-blocking write of a 600 KB message, alloc_serial while suspended, resume + write to completion (frames read at the peer, serial field decoded by hand) or abandonment; random histories of alloc_serial / send_message without preset / with preset (1, u32::MAX, last fresh, random) on a real SendConn, serials decoded from the frames at the peer; thorough: the counter is driven to u32::MAX once to observe the overflow branch; reply constructors x {sender present/absent} x {serial boundary values} decoded at the peer; distinct by request; non-trivial = histories with at least 2 operations, all reply cases",
+        "send_hello against a peer that queued its answer beforehand (reply / error reply / signal; right, neighbouring, no reply serial; string, non-string, empty body; after 0..5 explicit allocations); histories with suspended sends: send_message + serial() + into_progress before the first byte or after a short non-blocking write of a 600 KB message, alloc_serial while suspended, resume + write to completion (frames read at the peer, serial field decoded by hand) or abandonment; random histories of alloc_serial / send_message without preset / with preset (1, u32::MAX, last fresh, random) on a real SendConn, serials decoded from the frames at the peer; thorough: the counter is driven to u32::MAX once to observe the overflow branch; reply constructors x {sender present/absent} x {serial boundary values} decoded at the peer; distinct by request; non-trivial = histories with at least 2 operations, all reply cases",
         false,
     );
 }
